@@ -112,7 +112,11 @@ class C01(Check):
         )
 
     def predicates(self):
-        return {}
+        def ambiguous_union_default(case, message):
+            node, table = M.resolve(case["schema"])
+            return gen.schema_has_ambiguous_union_default(node, table)
+
+        return {"ambiguous_union_default": ambiguous_union_default}
 
 
 CHECK = C01()
